@@ -40,6 +40,11 @@ Record case : Type := mkCase {
   clks : list lookup
 }.
 
+(* cases are written with their events paired (op, what the implementation returned) so that the cases file can
+   name each distinct event once *)
+Definition mkCaseE (id : N) (kind : nat) (evs : list (rop * iobs)) (lks : list lookup) : case :=
+  mkCase id kind (map fst evs) (map snd evs) lks.
+
 Fixpoint list_nat_eqb (a b : list nat) : bool :=
   match a, b with
   | [], [] => true
